@@ -1230,6 +1230,10 @@ pub struct Fsm {
     pub timer: timer::Timer,
 
     pub generate_id_count: u32,
+
+    /// Locations ("#_scxml_<sessionid>") of the invoked sessions this session has cancelled or that
+    /// have reported done.invoke: events that still arrive from them are ignored.
+    pub cancelled_invocations: HashSet<String>,
 }
 
 impl Default for Fsm {
@@ -1303,6 +1307,7 @@ impl Fsm {
             executableContent: HashMap::new(),
             timer: timer::Timer::new(),
             generate_id_count: 0,
+            cancelled_invocations: HashSet::new(),
         }
     }
 
@@ -1669,14 +1674,13 @@ impl Fsm {
                             // Check if the session is active. A later invocation of the same <invoke> reuses
                             // the invoke id: events still queued from the cancelled one are told apart by
                             // their origin (the session they come from).
-                            let from_active_session = match get_global!(datamodel).child_sessions.get(invoke_id) {
-                                Some(session) => match &externalEventTmp.origin {
-                                    Some(origin) => {
-                                        *origin == format!("{}{}", SCXML_TARGET_SESSION_ID_PREFIX, session.session_id)
-                                    }
-                                    None => true,
-                                },
-                                None => false,
+                            // Every event an invoked session sends carries its invoke id, also when it
+                            // goes to a session that is not its parent: only events of invocations that
+                            // THIS session has cancelled are ignored, told by their origin.
+                            let from_active_session = match &externalEventTmp.origin {
+                                Some(origin) => !self.cancelled_invocations.contains(origin),
+                                // not sent through the SCXML processor: accepted for a running invocation only
+                                None => get_global!(datamodel).child_sessions.contains_key(invoke_id),
                             };
                             if from_active_session {
                                 externalEvent = externalEventTmp;
@@ -1708,7 +1712,13 @@ impl Fsm {
 
                 if externalEvent.name.starts_with(EVENT_DONE_INVOKE_PREFIX) {
                     if let Some(invoke_id) = &externalEvent.invoke_id {
-                        get_global!(datamodel).child_sessions.remove(invoke_id);
+                        // done.invoke is the last event of an invocation: whatever still arrives from that
+                        // session (e.g. a delayed send whose timer was already firing) is ignored.
+                        let finished = get_global!(datamodel).child_sessions.remove(invoke_id);
+                        if let Some(session) = finished {
+                            self.cancelled_invocations
+                                .insert(format!("{}{}", SCXML_TARGET_SESSION_ID_PREFIX, session.session_id));
+                        }
                     }
                 }
             }
@@ -3252,6 +3262,8 @@ impl Fsm {
         #[cfg(feature = "Trace_Method")]
         self.tracer.enter_method("cancelInvoke");
         get_global!(datamodel).child_sessions.remove(invoke_id);
+        self.cancelled_invocations
+            .insert(format!("{}{}", SCXML_TARGET_SESSION_ID_PREFIX, session_id));
         datamodel.send(
             SCXML_EVENT_PROCESSOR_SHORT_TYPE,
             &Data::String(format!("{}{}", SCXML_TARGET_SESSION_ID_PREFIX, session_id)),
